@@ -337,13 +337,49 @@ func famCloseRace(w *World, c *Case, rng *rand.Rand) {
 		}
 	}()
 	step := func() { time.Sleep(4 * time.Millisecond) }
+	// event-based synchronisation (bounded polling), so that a slow machine changes nothing
+	opState := func(rpc, side, k string) (open, returned bool) {
+		for _, r := range w.Env.Log.Records() {
+			if r.RPC == rpc && r.Side == side && r.K == k {
+				if r.RetSeq == 0 {
+					open = true
+				} else {
+					returned = true
+				}
+			}
+		}
+		return
+	}
+	waitFor := func(cond func() bool) bool {
+		for i := 0; i < 5000; i++ {
+			if cond() {
+				return true
+			}
+			time.Sleep(time.Millisecond)
+		}
+		return false
+	}
 	b := &RPCSpec{ID: "b", Method: "ServerStream", Client: []Op{{K: "open"}, {K: "send", N: 5}, {K: "close"}, {K: "recvall"}, {K: "trailer"}},
 		Handler: []Op{{K: "recv"}, {K: "sync", Name: "go"}, {K: "settrl", MD: metadata.MD{"t": {"1"}}}, {K: "ret"}}}
 	w.Env.StartRPC(context.Background(), w.Ch, b)
+	if !waitFor(func() bool { _, ret := opState("b", "handler", "recv"); return ret }) {
+		w.Note("closerace: b's handler never received its request; scenario not reached")
+		stop.Store(true)
+		<-pump
+		w.Finish()
+		return
+	}
 	step()
 	holdToServer.Store(true)
 	a := &RPCSpec{ID: "a", Method: "ClientStream", Client: []Op{{K: "open"}, {K: "send", N: 40000}, {K: "close"}, {K: "recvall"}}, Handler: []Op{{K: "recvall"}, {K: "ret"}}}
 	w.Env.StartRPC(context.Background(), w.Ch, a)
+	if !waitFor(func() bool { open, _ := opState("a", "client", "send"); return open }) {
+		w.Note("closerace: a's send never started; scenario not reached")
+		stop.Store(true)
+		<-pump
+		w.Finish()
+		return
+	}
 	step()
 	what := c.p("what", 0)
 	closed := make(chan struct{})
@@ -383,7 +419,21 @@ func famCloseRace(w *World, c *Case, rng *rand.Rand) {
 		}
 	}
 	if !delivered {
-		w.Violate("C15", "receive-loop-blocked-by-close", "while a frame write of RPC a was parked inside the carrier and Close() was in progress, RPC b's result (already sent by the peer) was not delivered to its caller within 3 s")
+		diag := ""
+		for _, o := range w.Env.Log.OpenOps() {
+			diag += fmt.Sprintf(" [%s %s %s]", o.RPC, o.Side, o.K)
+		}
+		for _, l := range w.Conn.Links() {
+			a, ar := l.Pending(C2S)
+			b, br := l.Pending(S2C)
+			diag += fmt.Sprintf(" link%d c2s=%d/%d s2c=%d/%d", l.ID, a, ar, b, br)
+		}
+		_, stacks := LibGoroutines()
+		sites := map[string]int{}
+		for _, g := range stacks {
+			sites[leakSite(g)]++
+		}
+		w.Violate("C15", "receive-loop-blocked-by-close", "while a frame write of RPC a was parked inside the carrier and Close() was in progress, RPC b's result (already sent by the peer) was not delivered to its caller within 3 s; open ops:%s; library goroutines by innermost function: %v", diag, sites)
 	}
 	holdToServer.Store(false)
 	step()
